@@ -156,6 +156,43 @@ def bidir_stream(res, rng, n):
         res.count(('bidir', i, w, tuple(order)), hist={'bidir_designs': 'BidirBuf'})
 
 
+def prepare_stimulus_stream(res, rng, n):
+    """test benches that drive the inputs with prepare() (registered stimulus) instead of put(): the value lands at the edge together
+    with every other prepared wire and the propagation that follows the edge must reach every cell that reads it"""
+    import contextlib, io
+    for i in range(n):
+        r = rng.fork(i)
+        plan = G.random_plan(r, r.randint(2, 14), seq_ratio=(1, 6), wmax=r.choice([1, 3, 8]), kinds=COMB_KINDS + ['Reg'])
+        order = r.shuffle(range(len(plan['nodes'])))
+        try:
+            with contextlib.redirect_stdout(io.StringIO()):
+                sysobj, ins, W, leaves = G.build(plan, inst_order=order)
+                sim = sysobj.getSimulator()
+        except Exception as e:
+            res.hist('build_errors', str(e)[:50])
+            continue
+        hist = []
+        sm = dict(plan=G.plan_summary(plan), inst_order=order, stimulus='inputs driven with Wire.prepare() before each clk()', history=hist,
+                  cycle_length=None, depth=None, n_leaves=len(plan['nodes']))
+        ok = True
+        for t in range(r.randint(2, 8)):
+            for w in ins:
+                v = r.bits(w.getWidth())
+                w.prepare(v)
+                hist.append(('prepare', w.name, v))
+            sim.clk(1)
+            hist.append(('clk', 1))
+            if ok:
+                ok = refixpoint_oracle(res, sysobj, dict(sm, history=list(hist)), 'after clk()')
+                for w in ins:
+                    want = [h for h in hist if h[0] == 'prepare' and h[1] == w.name][-1][2]
+                    if ok and w.get() != want:
+                        ok = False
+                        res.fail('a value prepared on an input wire before clk() is not on the wire after the edge',
+                                 dict(sm, wire=w.name, expected=want, observed=w.get()))
+        res.count(('prepstim', i), hist={'prepare_stimulus_designs': 1})
+
+
 def exhaustive_digraphs(res, rng, tier, lim):
     """EVERY digraph (self-loops included) on n leaves with the leaves instantiated in index order — relabelling makes this
     every instantiation order of every netlist shape on n leaves: real sorter (stub leaves with arbitrary fan-in) vs the Lean
@@ -255,11 +292,15 @@ def late_additions(res, rng, n):
         else:
             order = r.shuffle(range(nn))
             pause = r.randint(1, nn - 1) if nn > 1 else 0
-        summary = dict(plan=G.plan_summary(plan), inst_order=order, simulator_created_after=pause, equal_leaf_count=equal_count)
+        # every third case also ADVANCES the clock on the partial design before the remaining blocks are added (the run has started)
+        clk_before = (i % 3 == 1)
+        summary = dict(plan=G.plan_summary(plan), inst_order=order, simulator_created_after=pause, equal_leaf_count=equal_count,
+                       clk_before_additions=clk_before)
         try:
             ref_sys, ref_ins, _, _ = G.build(plan, inst_order=order)
             ref_sim = ref_sys.getSimulator()
-            sysobj, ins, W, leaves = G.build(plan, inst_order=order, pause_after=pause, on_pause=lambda top: top.getSimulator())
+            sysobj, ins, W, leaves = G.build(plan, inst_order=order, pause_after=pause,
+                                             on_pause=(lambda top: top.getSimulator().clk(1)) if clk_before else (lambda top: top.getSimulator()))
             sim = sysobj.getSimulator()
         except Exception as e:
             res.hist('late_build_errors', str(e)[:50])
@@ -277,7 +318,7 @@ def late_additions(res, rng, n):
                 continue          # the property speaks about the state at simulator creation and after every clk()
             a = {w.name: w.value for w in D.all_wires(ref_sys)}
             b = {w.name: w.value for w in D.all_wires(sysobj)}
-            if a != b and ok:
+            if a != b and ok and not clk_before:      # after an early clk the register states legitimately differ from the one-go build
                 ok = False
                 diff = {k: (a[k], b.get(k)) for k in a if a[k] != b.get(k)}
                 res.fail('blocks added after the simulator was created are not (correctly) scheduled: values differ from the same design built in one go',
@@ -409,6 +450,7 @@ def main(res, tier, rng, replay):
         res.broken.append(('correspondence', 'net-sim', str(e)[:300]))
     late_additions(res, rng.fork('late'), 60 if tier == 'quick' else 1200)
     bidir_stream(res, rng.fork('bidir'), 40 if tier == 'quick' else 800)
+    prepare_stimulus_stream(res, rng.fork('prepstim'), 40 if tier == 'quick' else 800)
     try:
         exhaustive_digraphs(res, rng.fork('digraphs'), tier, lim)
     except ToolFailure as e:
